@@ -114,6 +114,7 @@ class Engine:
             self.r_apps = []      # applications of the rounding function R (real-float model)
             self.pw_apps = []     # applications of the pow stub
             self.path_tables = set()
+            self.overapprox_used = False   # a stub chose a value from a sound over-approximation on this path
             res = PathResult()
             res.pid = self.n_paths
             self.path = res
